@@ -122,6 +122,8 @@ def build(case, given=None, extra=True, defaults_distinct=False, wrap=False):
             pass       # the topology does not mention the port
         elif port['t'] == 'path':
             topo[name] = tuple(port['p'])
+        elif port['t'] == 'gpath':
+            topo[name] = {'*': tuple(port['p'])}
         elif port['t'] == 'gdict':
             d = {'_path': tuple(port['p'])}
             for child, p in seq(port['sub']):
